@@ -159,8 +159,10 @@ func TestC04Direct(t *testing.T) { runProperty(t, "C04", genC04Direct, runC04Dir
 func genC04Rate(t *rapid.T) c04Scenario {
 	mn, mx, never := genC04Limits(t)
 	m := rapid.OneOf(rapid.IntRange(1, 255), rapid.SampledFrom([]int{1, 2, 3, 5, 10, 20, 50, 254, 255})).Draw(t, "m")
-	sc := c04Scenario{Tier: 2, Min: mn, Max: mx, Never: never, Loop: sim.LoopSpec{Kind: "direct", MaxChange: m}, TickMs: 100}
-	sc.Prefix = genPrefix(t, 60, false, 100)
+	// the limit is per cycle, whatever the time between two cycles: controllerAdjustmentTickRate has no upper bound
+	tick := rapid.SampledFrom([]int{100, 100, 100, 50, 200, 1000, 2000, 5500, 10000, 30000}).Draw(t, "tickMs")
+	sc := c04Scenario{Tier: 2, Min: mn, Max: mx, Never: never, Loop: sim.LoopSpec{Kind: "direct", MaxChange: m}, TickMs: tick}
+	sc.Prefix = genPrefix(t, 60, false, tick)
 	if len(sc.Prefix) == 0 {
 		sc.Prefix = []sim.Step{{Curve: rapid.IntRange(0, 255).Draw(t, "cv0")}}
 	}
@@ -221,7 +223,7 @@ func runC04Rate(t *testing.T, sc c04Scenario) verdict {
 		prevDist, prevSign = d, sg
 	}
 	nt := !(effMin(sc) == 0 && sc.Max == 255) && abs(start-S) >= 2*m
-	return verdict{vs: vs, nontrivial: nt, labels: []string{"tier2-rate"}, outcome: map[string]any{"start": start, "S": S, "tail": tail(tailR, 6)}}
+	return verdict{vs: vs, nontrivial: nt, labels: []string{"tier2-rate", fmt.Sprintf("tier2-tick:%d", sc.TickMs)}, outcome: map[string]any{"start": start, "S": S, "tail": tail(tailR, 6)}}
 }
 
 func abs(a int) int {
